@@ -311,12 +311,25 @@ def make_subset_data(data, pixels=None, return_selection=False, seed=None):
         return data
     if seed is not None:
         np.random.seed(seed)
-    tot_pix = len(data.x) * len(data.y)
+    flat_data = flat(data)
+    if 'flat' in data.dims:
+        # data that is already a subset: one entry of x and y per pixel
+        tot_pix = data.sizes['flat']
+    else:
+        tot_pix = len(data.x) * len(data.y)
     selection = np.random.choice(tot_pix, pixels, replace=False)
-    subset = flat(data).isel(flat=selection)
-    subset = copy_metadata(data, subset, do_coords=False)
+    subset = flat_data.isel(flat=selection)
+    if 'flat' in data.dims:
+        # (copy_metadata would re-align the subset with all pixels of data)
+        subset.attrs = data.attrs
+        subset.name = data.name
+    else:
+        subset = copy_metadata(data, subset, do_coords=False)
 
-    subset.attrs['original_dims'] = {key: data[key].values for key in data.dims}
+    if 'flat' not in data.dims or 'original_dims' not in data.attrs:
+        # (a subset of a subset still remembers the axes of the full image)
+        subset.attrs['original_dims'] = {key: data[key].values
+                                         for key in data.dims}
 
     if return_selection:
         return subset, selection
